@@ -69,7 +69,13 @@ fn client_data_ok(json: &[u8], ty: &str, origin: &str, challenge: &[u8]) -> Resu
     Ok(())
 }
 
-pub fn sweep() -> (bool, String) {
+/// `only`: "C01" .. "C11" -- only what that property says is looked at (an input is tried, or the sweep runs, on behalf of one property);
+/// anything else: every check, and a scenario that does not run at all is reported too.
+pub fn sweep(only: &str) -> (bool, String) {
+    let filtered = matches!(only, "C01" | "C02" | "C03" | "C04" | "C05" | "C11");
+    let on = |props: &[&str]| -> bool { !filtered || props.contains(&only) };
+    macro_rules! fail { ($props:expr, $($arg:tt)*) => { if on(&$props) { return (true, format!($($arg)*)); } } }
+    macro_rules! broken { ($($arg:tt)*) => { if !filtered { return (true, format!($($arg)*)); } else { return (false, format!("scenario did not run: {}", format!($($arg)*))); } } }
     let uvs = [UserVerificationRequirement::Discouraged, UserVerificationRequirement::Preferred, UserVerificationRequirement::Required];
     let rks = [None, Some(ResidentKeyRequirement::Discouraged), Some(ResidentKeyRequirement::Preferred), Some(ResidentKeyRequirement::Required)];
     let origin_s = "https://www.example.com:8443";
@@ -79,13 +85,13 @@ pub fn sweep() -> (bool, String) {
     for uv in uvs { for reg in [true, false] {
         let store = Spy { disc: 2, ..Default::default() };
         let mut setup = Client::new(Authenticator::new(Aaguid::new_empty(), store.clone(), SpyUv::default()));
-        if block_on(setup.register(&origin, creation(None, false, UserVerificationRequirement::Discouraged, None, None, false, 1), DefaultClientData)).is_err() { return (true, "setup registration failed".into()); }
+        if block_on(setup.register(&origin, creation(None, false, UserVerificationRequirement::Discouraged, None, None, false, 1), DefaultClientData)).is_err() { broken!("setup registration failed"); }
         let mut client = Client::new(Authenticator::new(Aaguid::new_empty(), store.clone(), SpyUv { no_uv: true, ..Default::default() }));
         let refused = if reg { matches!(block_on(client.register(&origin, creation(None, false, uv, None, None, false, 3), DefaultClientData)), Err(WebauthnError::AuthenticatorError(0x2b))) }
             else { let req = CredentialRequestOptions { public_key: PublicKeyCredentialRequestOptions { challenge: vec![8].into(), timeout: None, rp_id: None, allow_credentials: None, user_verification: uv, hints: None, attestation: Default::default(), attestation_formats: None, extensions: None } };
                    matches!(block_on(client.authenticate(&origin, req, DefaultClientData)), Err(WebauthnError::AuthenticatorError(0x2b))) };
         let want = uv != UserVerificationRequirement::Discouraged;
-        if refused != want { return (true, format!("{} with userVerification={uv:?} on an authenticator without user verification: refused={refused}, expected {want}", if reg { "register" } else { "authenticate" })); }
+        if refused != want { fail!(["C04"], "{} with userVerification={uv:?} on an authenticator without user verification: refused={refused}, expected {want}", if reg { "register" } else { "authenticate" }); }
     } }
     // residentKey on a store that can only hold non-discoverable credentials
     for (ri, rk) in rks.iter().enumerate() { for require in [false, true] {
@@ -93,10 +99,11 @@ pub fn sweep() -> (bool, String) {
         let mut client = Client::new(Authenticator::new(Aaguid::new_empty(), store.clone(), SpyUv::default()));
         let r = block_on(client.register(&origin, creation(*rk, require, UserVerificationRequirement::Preferred, None, None, true, 1), DefaultClientData));
         let want_rk = match rk { Some(ResidentKeyRequirement::Required) => true, Some(ResidentKeyRequirement::Preferred) => false, Some(ResidentKeyRequirement::Discouraged) => false, None => require };
-        match r { Ok(c) => { if want_rk { return (true, format!("non-discoverable-only store, residentKey#{ri} requireResidentKey={require}: a required resident key was accepted")); }
-                             if store.saved.lock().unwrap()[0].1 || c.client_extension_results.cred_props.and_then(|p| p.discoverable) != Some(false) { return (true, format!("non-discoverable-only store, residentKey#{ri} requireResidentKey={require}: rk sent / credProps wrong")); } }
-                  Err(WebauthnError::AuthenticatorError(0x2b)) => if !want_rk { return (true, format!("non-discoverable-only store, residentKey#{ri} requireResidentKey={require}: registration refused although the WebAuthn mapping gives rk=false")); },
-                  Err(e) => return (true, format!("non-discoverable-only store, residentKey#{ri}: {e:?}")) }
+        match r { Ok(c) => { if want_rk { fail!(["C11"], "non-discoverable-only store, residentKey#{ri} requireResidentKey={require}: a required resident key was accepted"); }
+                             if store.saved.lock().unwrap().is_empty() { fail!(["C02"], "non-discoverable-only store, residentKey#{ri} requireResidentKey={require}: the registration returned success and stored nothing"); broken!("non-discoverable-only store, residentKey#{ri}: the registration stored nothing"); }
+                             if store.saved.lock().unwrap()[0].1 || c.client_extension_results.cred_props.and_then(|p| p.discoverable) != Some(false) { fail!(["C11"], "non-discoverable-only store, residentKey#{ri} requireResidentKey={require}: rk sent / credProps wrong"); } }
+                  Err(WebauthnError::AuthenticatorError(0x2b)) => if !want_rk { fail!(["C11"], "non-discoverable-only store, residentKey#{ri} requireResidentKey={require}: registration refused although the WebAuthn mapping gives rk=false"); },
+                  Err(e) => { broken!("non-discoverable-only store, residentKey#{ri}: {e:?}"); } }
     } }
     for disc in [0u8, 2] { for (ri, rk) in rks.iter().enumerate() { for require in [false, true] { for uv in uvs { for rp in [None, Some("example.com")] { for cred_props in [false, true] {
         n += 1;
@@ -105,26 +112,37 @@ pub fn sweep() -> (bool, String) {
         let mut client = Client::new(Authenticator::new(Aaguid::new_empty(), store.clone(), uvd.clone()));
         let ctx = format!("register disc={disc} residentKey#{ri} requireResidentKey={require} userVerification={uv:?} rp.id={rp:?} credProps={cred_props}");
         let r = block_on(client.register(&origin, creation(*rk, require, uv, rp, None, cred_props, 1), DefaultClientData));
-        let c = match r { Ok(c) => c, Err(e) => return (true, format!("{ctx}: failed with {e:?}")) };
+        let c = match r { Ok(c) => c, Err(e) => { broken!("{ctx}: failed with {e:?}"); } };
         let want_rp = rp.unwrap_or("www.example.com");
         let want_rk = match rk { Some(ResidentKeyRequirement::Required) => true, Some(ResidentKeyRequirement::Preferred) => true /* both stores support rk */, Some(ResidentKeyRequirement::Discouraged) => false, None => require };
         let saved = store.saved.lock().unwrap().clone();
-        if saved.len() != 1 || saved[0].0 != want_rp { return (true, format!("{ctx}: credential saved under RP {:?}, the effective RP ID is {want_rp}", saved.first().map(|s| s.0.clone()))); }
-        if saved[0].1 != want_rk { return (true, format!("{ctx}: rk option {} reached the authenticator, the WebAuthn mapping gives {want_rk}", saved[0].1)); }
+        if saved.len() != 1 || saved[0].0 != want_rp { fail!(["C01", "C02"], "{ctx}: credential saved under RP {:?}, the effective RP ID is {want_rp}", saved.first().map(|s| s.0.clone())); }
+        if saved.len() != 1 { broken!("{ctx}: the registration did not store exactly one credential; what follows it is not looked at"); }
+        if saved[0].1 != want_rk { fail!(["C11"], "{ctx}: rk option {} reached the authenticator, the WebAuthn mapping gives {want_rk}", saved[0].1); }
         let asked = uvd.asked.lock().unwrap().clone();
         let want_uv = uv != UserVerificationRequirement::Discouraged;
-        if asked.last() != Some(&(true, want_uv)) { return (true, format!("{ctx}: user check asked for {:?}, expected (presence, verification)=(true, {want_uv})", asked.last())); }
+        if asked.last() != Some(&(true, want_uv)) { fail!(["C04"], "{ctx}: user check asked for {:?}, expected (presence, verification)=(true, {want_uv})", asked.last()); }
         let want_props = if cred_props { Some(if disc == 2 { true } else { want_rk }) } else { None };
-        if c.client_extension_results.cred_props.as_ref().and_then(|p| p.discoverable) != want_props { return (true, format!("{ctx}: credProps {:?}, the stored credential's discoverability is {want_props:?}", c.client_extension_results.cred_props)); }
-        if c.id != b64(&c.raw_id) { return (true, format!("{ctx}: id and rawId disagree")); }
-        if let Err(e) = client_data_ok(&c.response.client_data_json, "webauthn.create", origin_s, &[7, 7, 7, 250, 251]) { return (true, format!("{ctx}: {e}")); }
-        let att: ciborium::value::Value = match ciborium::de::from_reader(&c.response.attestation_object[..]) { Ok(v) => v, Err(_) => return (true, format!("{ctx}: attestation object is not CBOR")) };
+        if c.client_extension_results.cred_props.as_ref().and_then(|p| p.discoverable) != want_props { fail!(["C11"], "{ctx}: credProps {:?}, the stored credential's discoverability is {want_props:?}", c.client_extension_results.cred_props); }
+        if c.id != b64(&c.raw_id) { fail!(["C02"], "{ctx}: id and rawId disagree"); }
+        if let Err(e) = client_data_ok(&c.response.client_data_json, "webauthn.create", origin_s, &[7, 7, 7, 250, 251]) { fail!(["C02"], "{ctx}: {e}"); }
+        let att: ciborium::value::Value = match ciborium::de::from_reader(&c.response.attestation_object[..]) { Ok(v) => v, Err(_) => { fail!(["C02"], "{ctx}: attestation object is not CBOR"); ciborium::value::Value::Null } };
         let ad = att.as_map().and_then(|m| m.iter().find(|(k, _)| k.as_text() == Some("authData")).and_then(|(_, v)| v.as_bytes().cloned()));
-        if ad.as_deref() != Some(&c.response.authenticator_data[..]) { return (true, format!("{ctx}: authenticator data in the attestation object differs from response.authenticatorData")); }
+        if ad.as_deref() != Some(&c.response.authenticator_data[..]) { fail!(["C02"], "{ctx}: authenticator data in the attestation object differs from response.authenticatorData"); }
+        // authenticator data: SHA-256 of the effective RP ID, and an attested credential whose id is the returned raw id
+        {
+            use sha2::Digest;
+            let adb = &c.response.authenticator_data[..];
+            if adb.len() < 55 || adb[..32] != sha2::Sha256::digest(want_rp.as_bytes())[..] { fail!(["C02"], "{ctx}: authenticator data does not start with SHA-256 of the effective RP ID {want_rp}"); }
+            else {
+                let idl = u16::from_be_bytes([adb[53], adb[54]]) as usize;
+                if adb[32] & 0x40 == 0 || adb.len() < 55 + idl || adb[55..55 + idl] != c.raw_id[..] { fail!(["C02"], "{ctx}: the attested credential id is not the returned raw id"); }
+            }
+        }
         // a second registration excluding the first credential must be refused
         let ex = vec![PublicKeyCredentialDescriptor { ty: PublicKeyCredentialType::PublicKey, id: c.raw_id.clone(), transports: None }];
         let r2 = block_on(client.register(&origin, creation(*rk, require, uv, rp, Some(ex), cred_props, 2), DefaultClientData));
-        if !matches!(r2, Err(WebauthnError::AuthenticatorError(0x19))) { return (true, format!("{ctx}: exclude list naming the existing credential gave {:?}", r2.map(|_| ()))); }
+        if !matches!(r2, Err(WebauthnError::AuthenticatorError(0x19))) { fail!(["C05"], "{ctx}: exclude list naming the existing credential gave {:?}", r2.map(|_| ())); }
         // authentication
         let id = c.raw_id.to_vec();
         let d = |ty: PublicKeyCredentialType, id: &[u8]| PublicKeyCredentialDescriptor { ty, id: id.to_vec().into(), transports: None };
@@ -145,17 +163,30 @@ pub fn sweep() -> (bool, String) {
             let r = block_on(client.authenticate(&origin, req, DefaultClientData));
             let looked = store.lookups.lock().unwrap().clone();
             let want_ids = list.as_ref().map(|l| l.iter().map(|x| x.id.to_vec()).collect::<Vec<_>>());
-            if looked.first().map(|l| (&l.0, l.1.as_str())) != Some((&want_ids, want_rp)) { return (true, format!("{actx}: the store was asked for {:?}, the request names ids {want_ids:?} under RP {want_rp}", looked.first())); }
+            if looked.first().map(|l| l.1.as_str()) != Some(want_rp) { fail!(["C01"], "{actx}: the store was asked under RP {:?}, the effective RP ID is {want_rp}", looked.first().map(|l| l.1.clone())); }
+            if looked.first().map(|l| &l.0) != Some(&want_ids) { fail!(["C05"], "{actx}: the store was asked for {:?}, the request names ids {want_ids:?}", looked.first().map(|l| l.0.clone())); }
             match r {
                 Ok(a) => {
-                    if !found { return (true, format!("{actx}: an assertion was produced, expected CredentialNotFound")); }
-                    if a.raw_id.to_vec() != id || a.id != b64(&id) { return (true, format!("{actx}: returned id / rawId do not name the registered credential")); }
-                    if a.response.user_handle.is_some() != (disc == 2 || want_rk) { return (true, format!("{actx}: user handle {:?}", a.response.user_handle)); }
-                    if let Err(e) = client_data_ok(&a.response.client_data_json, "webauthn.get", origin_s, &[8, 8, 249]) { return (true, format!("{actx}: {e}")); }
-                    if uvd.asked.lock().unwrap().last() != Some(&(true, want_uv)) { return (true, format!("{actx}: user check asked for {:?}", uvd.asked.lock().unwrap().last())); }
+                    if !found { fail!(["C03", "C05"], "{actx}: an assertion was produced, expected CredentialNotFound"); }
+                    if a.raw_id.to_vec() != id || a.id != b64(&id) { fail!(["C03"], "{actx}: returned id / rawId do not name the registered credential"); }
+                    if a.response.user_handle.is_some() != (disc == 2 || want_rk) { fail!(["C03", "C11"], "{actx}: user handle {:?}", a.response.user_handle); }
+                    {
+                        // the signature verifies under the public key registered for the returned id, over authData || SHA-256(clientDataJSON);
+                        // the authenticator data carries SHA-256 of the effective RP ID and no attested credential data
+                        use p256::ecdsa::signature::Verifier; use p256::pkcs8::DecodePublicKey; use sha2::Digest;
+                        let adb = &a.response.authenticator_data[..];
+                        if adb.len() < 37 || adb[..32] != sha2::Sha256::digest(want_rp.as_bytes())[..] || adb[32] & 0x40 != 0 { fail!(["C03"], "{actx}: authenticator data without SHA-256 of the effective RP ID, or with attested credential data"); }
+                        let ok = c.response.public_key.as_ref().and_then(|der| p256::ecdsa::VerifyingKey::from_public_key_der(der).ok()).and_then(|vk| {
+                            let sig = p256::ecdsa::Signature::from_der(&a.response.signature).ok()?;
+                            let mut msg = adb.to_vec(); msg.extend_from_slice(&sha2::Sha256::digest(&a.response.client_data_json[..]));
+                            vk.verify(&msg, &sig).ok() }).is_some();
+                        if !ok { fail!(["C03"], "{actx}: the signature does not verify under the registered public key over authenticator data || SHA-256(client data JSON)"); }
+                    }
+                    if let Err(e) = client_data_ok(&a.response.client_data_json, "webauthn.get", origin_s, &[8, 8, 249]) { fail!(["C03"], "{actx}: {e}"); }
+                    if uvd.asked.lock().unwrap().last() != Some(&(true, want_uv)) { fail!(["C04"], "{actx}: user check asked for {:?}", uvd.asked.lock().unwrap().last()); }
                 }
-                Err(WebauthnError::CredentialNotFound) => if found { return (true, format!("{actx}: CredentialNotFound for a registered credential")); },
-                Err(e) => return (true, format!("{actx}: {e:?}")),
+                Err(WebauthnError::CredentialNotFound) => if found { fail!(["C03"], "{actx}: CredentialNotFound for a registered credential"); },
+                Err(e) => { broken!("{actx}: {e:?}"); }
             }
         }
     } } } } } }
